@@ -84,6 +84,23 @@ template<class G> void run_alg(const std::string &alg, Toks &t, int scale, std::
         if (!thrown) {
             out << "RET " << exact_weight(ret, scale);
             print_cycles(out, c, cycles);
+            // the same call through a POSITIONAL output iterator (pre-sized storage, as a caller who knows m-n+c would use):
+            // it must deliver the same cycles in the same slots and the same value
+            std::vector<std::list<Edge>> slots(cycles.size() + 2);
+            typename boost::property_traits<WMap>::value_type ret2;
+            if (alg == "signed") ret2 = parmcb::approx_mcb_sva_signed(c.g, wm, k, slots.begin());
+            else if (alg == "fvs") ret2 = parmcb::approx_mcb_sva_fvs_trees(c.g, wm, k, slots.begin());
+            else ret2 = parmcb::approx_mcb_sva_iso_trees(c.g, wm, k, slots.begin());
+            // (which of several equally light cycles the exact phase picks depends on the pointer order of the internal spanner's edges, which
+            //  differs between two calls: so compare the value, the slots that were written and the weight they carry — not the cycles themselves)
+            bool same = ret2 == ret && slots[cycles.size()].empty() && slots[cycles.size() + 1].empty();
+            typename boost::property_traits<WMap>::value_type sum2 = typename boost::property_traits<WMap>::value_type();
+            for (size_t j = 0; j < cycles.size(); j++) {
+                same = same && !slots[j].empty();
+                for (auto &e : slots[j]) { if (c.id(e) == (size_t) -1) same = false; else sum2 += boost::get(wm, e); }
+            }
+            same = same && sum2 == ret2;
+            if (!same) throw std::logic_error("the same call through a positional output iterator (vector::begin()) does not fill exactly the first m-n+c slots with cycles of the returned total weight / returns a different value than through back_inserter");
         }
     }
     // the same two statements, on an object whose spanner we can look at
